@@ -14,12 +14,16 @@ use crate::{
     transport::{
         interface::WriteMessage,
         types::{
-            CacheChange, ChangeKind, DurabilityKind, ENTITYID_UNKNOWN, EntityId, Guid, GuidPrefix,
-            ReaderProxy, ReliabilityKind, SequenceNumber,
+            CacheChange, ChangeKind, DurabilityKind, EntityId, Guid, GuidPrefix, ReaderProxy,
+            ReliabilityKind, SequenceNumber,
         },
     },
 };
 use alloc::vec::Vec;
+
+// (only the unit tests below still use it)
+#[cfg(test)]
+use crate::transport::types::ENTITYID_UNKNOWN;
 
 pub struct RtpsStatefulWriter {
     guid: Guid,
@@ -247,7 +251,7 @@ impl RtpsStatefulWriter {
                     let info_dst =
                         InfoDestinationSubmessage::new(reader_proxy.remote_reader_guid().prefix());
                     let gap_submessage = GapSubmessage::new(
-                        ENTITYID_UNKNOWN,
+                        reader_proxy.remote_reader_guid().entity_id(),
                         writer_id,
                         change_seq_num,
                         SequenceNumberSet::new(change_seq_num + 1, []),
@@ -400,8 +404,9 @@ impl RtpsReaderProxy {
                     message_writer.write_message(rtps_message.buffer(), self.unicast_locator_list())
                 }
             } else {
+                // (addressed to this proxy's reader: its sibling readers decide on their own proxies)
                 let gap_submessage = GapSubmessage::new(
-                    ENTITYID_UNKNOWN,
+                    self.remote_reader_guid().entity_id(),
                     writer_id,
                     next_unsent_change_seq_num,
                     SequenceNumberSet::new(next_unsent_change_seq_num + 1, []),
@@ -545,8 +550,9 @@ impl RtpsReaderProxy {
                         let info_dst =
                             InfoDestinationSubmessage::new(self.remote_reader_guid().prefix());
 
+                        // (addressed to this proxy's reader: its sibling readers decide on their own proxies)
                         let gap_submessage = GapSubmessage::new(
-                            ENTITYID_UNKNOWN,
+                            self.remote_reader_guid().entity_id(),
                             writer_id,
                             next_unsent_change_seq_num,
                             SequenceNumberSet::new(next_unsent_change_seq_num + 1, []),
@@ -666,7 +672,7 @@ impl RtpsReaderProxy {
                         InfoDestinationSubmessage::new(self.remote_reader_guid().prefix());
 
                     let gap_submessage = GapSubmessage::new(
-                        ENTITYID_UNKNOWN,
+                        self.remote_reader_guid().entity_id(),
                         writer_id,
                         next_requested_change_seq_num,
                         SequenceNumberSet::new(next_requested_change_seq_num + 1, []),
